@@ -340,3 +340,21 @@ reg(
     TECHNIQUE="runtime monitoring with a server-side observer: real handshakes over loopback, two-party byte accounting, three-valued reference for the demanded checks",
     REQUIRED_MONITORS={"quick": {"lattice_point": 2000, "must_reject": 1000, "must_accept_accepted": 500, "verified_bookkeeping": 500}, "thorough": {"lattice_point": 30000, "must_reject": 15000, "must_accept_accepted": 8000, "verified_bookkeeping": 8000}},
 )
+
+reg(
+    "C09",
+    RULE="(proxy scheme http/https, destination scheme, use_forwarding_for_https, proxy certificate ok / wrong name / untrusted, origin certificate ok / wrong name / untrusted, CONNECT reply per connection in {200, 403, 407, 502, garbage, EOF}, proxy_headers set, request headers, destination host form incl. IPv4 / bracketed IPv6 / explicit ports, ProxyManager vs proxy_from_url, proxy URL spelling, retries, 1-3 requests to the same or mixed destinations with the server closing the connection after 1-2 requests, announced or silently): the complete truth table x certificate states x replies with 1-3 requests, plus random cases; a case is that tuple; all non-trivial",
+    ASSUMPTIONS=COMMON_ASSUMPTIONS + [
+        "routing reference = the documented table: tunnel iff the destination is https and not (proxy is https and use_forwarding_for_https); with an http proxy the forwarding option has no effect (still tunnels)",
+        "exception class: a CONNECT refused with a status must surface as ProxyError or SSLError (possibly as MaxRetryError.reason); a garbage or empty reply to CONNECT is not a refusal and may also surface as ProtocolError — only 'nothing was sent' is judged there; with retries the class is judged on the last attempt",
+        "confidentiality is judged on bytes: each request carries unique secrets in path, Authorization and Cookie; every plaintext byte readable by the proxy and every byte decrypted by the origin inside the tunnel is searched for secrets of the other party",
+        "the origin inside the tunnel is played by the same listener after CONNECT 200; real upstream dialling by the proxy is not modelled",
+        "stdlib ssl backend only (urllib3's pyOpenSSL backend does not support TLS-in-TLS); socks proxies are out of scope",
+    ],
+    SHARDS={"quick": 8, "thorough": 16},
+    BUDGET={"quick": 40, "thorough": 420},
+    LEVEL_TEXT="Runtime monitoring with two observers: a recording loopback proxy (plain or TLS) logs every message addressed to it and every plaintext byte it can read; the same listener plays the origin inside CONNECT tunnels (TLS-in-TLS for https proxies) and logs every decrypted byte and request. Each run's logs are judged against the routing truth table, CONNECT target exactness, header confidentiality in both directions, origin-form inside / absolute-form outside the tunnel, SNI inside the tunnel, never-sent-after-refusal/failed-verification with the exception class, and CONNECT-first on every connection that carries tunnelled traffic (re-tunnel after close).",
+    LEVEL_NOTE="Trusts the 10-line routing reference and the listener's HTTP/TLS framing (vf/wire.py, ssl.MemoryBIO); proxy behaviours outside the scripted set (slow CONNECT, partial replies, 1xx) are not covered.",
+    TECHNIQUE="runtime monitoring with proxy-side and origin-side observers over real sockets and real TLS (incl. TLS-in-TLS); offline check of the two-party logs against the routing table and the confidentiality rule",
+    REQUIRED_MONITORS={"quick": {"proxied_run": 2000, "tunnel_connection": 1000, "forward_connection": 500, "confidentiality": 1500, "origin_form": 400, "refusal_class": 150, "origin_verification_class": 60, "retunnelled_after_close": 30, "inner_sni": 200}, "thorough": {"proxied_run": 30000, "tunnel_connection": 15000, "forward_connection": 8000, "confidentiality": 20000, "origin_form": 6000, "retunnelled_after_close": 500}},
+)
